@@ -84,13 +84,25 @@ fn parse_src(g: &str) -> Option<Src> {
 pub fn build(events: &[Event]) -> Model {
     let mut m = Model::default();
     // name -> stack of instance ids (new scopes); global instance created on demand
-    let mut scopes: BTreeMap<String, Vec<usize>> = BTreeMap::new();
+    let mut scopes: BTreeMap<String, Vec<(usize, Option<(usize, usize)>)>> = BTreeMap::new();
     let mut globals: BTreeMap<String, usize> = BTreeMap::new();
     let mut open_folds: Vec<usize> = vec![];
     let mut seq = 0;
-    fn current(m: &mut Model, scopes: &BTreeMap<String, Vec<usize>>, globals: &mut BTreeMap<String, usize>, name: &str) -> usize {
-        if let Some(id) = scopes.get(name).and_then(|s| s.last()) {
-            return *id;
+    // `new` scoping is lexical: an operand belongs to the innermost scope still being executed whose
+    // `new` encloses the operand in the script text, and to the global instance otherwise (a scope opened
+    // by an outer iteration of a fold does not capture an operand written after its `new`)
+    fn current(m: &mut Model, scopes: &BTreeMap<String, Vec<(usize, Option<(usize, usize)>)>>, globals: &mut BTreeMap<String, usize>, name: &str, pos: Option<usize>) -> usize {
+        if let Some(stack) = scopes.get(name) {
+            for (id, span) in stack.iter().rev() {
+                let inside = match (span, pos) {
+                    (Some((l, r)), Some(p)) => *l < p && p < *r,
+                    // no position information: dynamic nesting is the best available reading
+                    _ => true,
+                };
+                if inside {
+                    return *id;
+                }
+            }
         }
         if let Some(id) = globals.get(name) {
             return *id;
@@ -100,12 +112,26 @@ pub fn build(events: &[Event]) -> Model {
         globals.insert(name.to_string(), id);
         id
     }
+    let mut pending_span: Option<(String, usize, usize)> = None;
+    let mut pending_use: Option<(String, usize)> = None;
+    fn take_use(pending: &mut Option<(String, usize)>, name: &str) -> Option<usize> {
+        match pending.take() {
+            Some((n, p)) if n == name => Some(p),
+            _ => None,
+        }
+    }
     for e in events {
         match e {
+            Event::ScopeSpan { name, left, right } => pending_span = Some((name.clone(), *left, *right)),
+            Event::StreamUse { name, air_pos } => pending_use = Some((name.clone(), *air_pos)),
             Event::ScopeStart { name } => {
                 let id = m.instances.len();
                 m.instances.push(Instance { name: name.clone(), id, adds: vec![] });
-                scopes.entry(name.clone()).or_default().push(id);
+                let span = match pending_span.take() {
+                    Some((n, l, r)) if &n == name => Some((l, r)),
+                    _ => None,
+                };
+                scopes.entry(name.clone()).or_default().push((id, span));
             }
             Event::ScopeEnd { name } => {
                 if scopes.get_mut(name).and_then(|s| s.pop()).is_none() {
@@ -113,7 +139,8 @@ pub fn build(events: &[Event]) -> Model {
                 }
             }
             Event::StreamAdd { name, generation, value, trace_pos } => {
-                let id = current(&mut m, &scopes, &mut globals, name);
+                let pos = take_use(&mut pending_use, name);
+                let id = current(&mut m, &scopes, &mut globals, name, pos);
                 match parse_src(generation) {
                     Some(src) => {
                         seq += 1;
@@ -123,7 +150,8 @@ pub fn build(events: &[Event]) -> Model {
                 }
             }
             Event::CanonSnapshot { name, values } => {
-                let id = current(&mut m, &scopes, &mut globals, name);
+                let pos = take_use(&mut pending_use, name);
+                let id = current(&mut m, &scopes, &mut globals, name, pos);
                 let adds_before = m.instances[id].adds.len();
                 m.snapshots.push(Snapshot { instance: id, name: name.clone(), values: values.clone(), adds_before, first_time_peer: None });
             }
@@ -135,7 +163,8 @@ pub fn build(events: &[Event]) -> Model {
             Event::FoldStart { fold_id, name } => {
                 // name is the printed fold instruction: "fold $s it"
                 let sname = name.split_whitespace().nth(1).unwrap_or("").to_string();
-                let inst = if sname.starts_with('$') || sname.starts_with('%') { Some(current(&mut m, &scopes, &mut globals, &sname)) } else { None };
+                let pos = take_use(&mut pending_use, &sname);
+                let inst = if sname.starts_with('$') || sname.starts_with('%') { Some(current(&mut m, &scopes, &mut globals, &sname, pos)) } else { None };
                 open_folds.push(m.folds.len());
                 m.folds.push(FoldRun { fold_id: *fold_id, name: sname, instance: inst, visited: vec![], ended: false, start_seq: seq, adds_at_end: 0 });
             }
